@@ -3,6 +3,7 @@ package fr
 import (
 	"fmt"
 	"os"
+	"strings"
 
 	sdk "github.com/cosmos/cosmos-sdk/types"
 
@@ -91,8 +92,12 @@ func bidTypeName(t frtypes.BidType) string {
 	return t.String()
 }
 
+// name maps an address to the model's account name; the spelling (bech32 is valid in all-lower and in all-upper case) does not matter
 func (e *Env) name(addr string) string {
 	if n, ok := e.Name[addr]; ok {
+		return n
+	}
+	if n, ok := e.Name[strings.ToLower(addr)]; ok {
 		return n
 	}
 	return addr
